@@ -1,6 +1,6 @@
 -------------------------------- MODULE Trace --------------------------------
 (* Universal trace specification: dispatches every event to its package.   *)
-EXTENDS TraceDate, TraceRoman, TraceUU, TraceSem, TraceSize
+EXTENDS TraceDate, TraceRoman, TraceUU, TraceSem, TraceSize, TraceCross
 
 TraceInit == TraceBaseInit /\ DateInit /\ RomanInit /\ UUInit /\ SemInit /\ SizeInit
 
@@ -12,6 +12,7 @@ TraceNext ==
           \/ IsUUOp(e)    /\ UUStep(e)    /\ UNCHANGED <<dvars, rvars, svars, zvars, ctx>>
           \/ IsSemOp(e)   /\ SemStep(e)   /\ UNCHANGED <<dvars, rvars, uvars, zvars, ctx>>
           \/ IsSizeOp(e)  /\ SizeStep(e)  /\ UNCHANGED <<dvars, rvars, uvars, svars, ctx>>
+          \/ IsCrossOp(e) /\ CrossStep(e) /\ UNCHANGED <<dvars, rvars, uvars, svars, zvars, ctx>>
      /\ l' = l + 1
   \/ Finish /\ UNCHANGED <<dvars, rvars, uvars, svars, zvars>>
 
